@@ -358,6 +358,28 @@ def check_props(pid):
             "axioms": sorted(axioms), "assumption_blocks": nblocks, "forbidden": bad}
 
 
+def coqchk_props(pid, timeout=2400):
+    """Independent re-check of Props/<pid>.vo and everything it depends on."""
+    t0 = time.time()
+    r = subprocess.run(["timeout", str(timeout), "coqchk", "-silent", "-o", "-R", str(COQ), "Hy",
+                        f"Hy.Props.{pid}"], capture_output=True, text=True, cwd=str(COQ))
+    out = r.stdout + r.stderr
+
+    def section(title):
+        m = re.search(re.escape(title) + r"\s*(.*?)(?:\n\s*\n|\Z)", out, re.S)
+        if not m:
+            return None
+        items = [x.strip() for x in m.group(1).splitlines() if x.strip()]
+        return [] if items == ["<none>"] else items
+    ax = section("* Axioms:") or []
+    tit = section("* Constants/Inductives relying on type-in-type:")
+    unf = section("* Constants/Inductives relying on unsafe (co)fixpoints:")
+    pos = section("* Inductives whose positivity is assumed:")
+    ok = r.returncode == 0 and tit == [] and unf == [] and pos == []
+    return {"ok": ok, "axioms": ax, "type_in_type": tit, "unsafe_fixpoints": unf,
+            "assumed_positivity": pos, "wall_s": round(time.time() - t0, 1), "log": out[-3000:]}
+
+
 def run_case_files(pid, header, case_type, ok_fun, case_terms, shard=400, timeout=900,
                    max_bytes=300000):
     """Evaluate the model on the cases inside Coq.
@@ -563,6 +585,14 @@ def prove(ctx, pid=None, extra_targets=(), extractors=None):
         return False
     for n in res["theorems"]:
         ctx.obligation(f"Props/{pid}.v:{n}", True)
+    if ctx.thorough and os.environ.get("HYVERIF_SKIP_COQCHK") != "1":
+        ck = coqchk_props(pid)
+        ctx.notes["coqchk"] = {k: ck[k] for k in ("ok", "axioms", "type_in_type", "unsafe_fixpoints",
+                                                  "assumed_positivity", "wall_s")}
+        ctx.obligation(f"coqchk -o Hy.Props.{pid} (independent re-check of the .vo closure)", ck["ok"])
+        if not ck["ok"]:
+            ctx.notes["coqchk_log"] = ck["log"]
+            return False
     if res["assumption_blocks"] < len(res["theorems"]):
         ctx.notes["print_assumptions_missing"] = len(res["theorems"]) - res["assumption_blocks"]
     return True
